@@ -242,7 +242,10 @@ class Lin:
         self.ensure_wait()
         ret = [e for e in self.caller if e["k"] in ("CWaitRetCtx", "CWaitRetFin")]
         werr = self.rec["wait_err"]
-        r = ",".join(werr) if werr else "nil"
+        # an error that is none of the jobs' or contexts' (something the scheduler made up) is passed to the
+        # model as a user error no job returns: the model then refuses the return value instead of the reader choking
+        import re as _re
+        r = ",".join(w if _re.match(r"^(U\d+|C\d+|I|X)$", w) else "U60000" for w in werr) if werr else "nil"
         if ret:
             if ret[0]["k"] == "CWaitRetCtx":
                 self.ensure_cancel(0)
